@@ -17,14 +17,15 @@ type approx float64 // float compared with relative tolerance 1e-5 (absolute 1e-
 type ignore struct{}
 
 type conf struct {
-	name   string
-	src    string
-	bufs   map[int][]byte // binding -> initial bytes (group 0)
-	want   []any          // expected words of binding 0: uint32 / int / int32 / float32 (bit exact) / approx / ignore
-	want1  []any          // optional: expected words of binding 1
-	opts   xrt.Opts
-	defect string // non-empty: known naga defect, the expectation fails today
-	only   string // restrict to one option set (debugging)
+	name           string
+	src            string
+	bufs           map[int][]byte // binding -> initial bytes (group 0)
+	want           []any          // expected words of binding 0: uint32 / int / int32 / float32 (bit exact) / approx / ignore
+	want1          []any          // optional: expected words of binding 1
+	opts           xrt.Opts
+	defect         string // non-empty: known naga defect, the expectation fails today
+	zeroInitDefect string // non-empty: known naga defect visible only when locals start as poison
+	only           string // restrict to one option set (debugging)
 }
 
 func checkWords(got []byte, want []any) error {
@@ -66,7 +67,9 @@ func checkWords(got []byte, want []any) error {
 	return nil
 }
 
-func (c *conf) run(m *Module) error {
+func (c *conf) run(m *Module, poison bool) error {
+	o := c.opts
+	o.PoisonLocals = poison
 	bufs := xrt.Buffers{}
 	for k, v := range c.bufs {
 		bufs[bnd(0, uint32(k))] = append([]byte(nil), v...)
@@ -74,7 +77,7 @@ func (c *conf) run(m *Module) error {
 	if _, ok := bufs[bnd(0, 0)]; !ok {
 		bufs[bnd(0, 0)] = make([]byte, 4*len(c.want))
 	}
-	if err := Exec(m, bufs, c.opts); err != nil {
+	if err := Exec(m, bufs, o); err != nil {
 		return fmt.Errorf("Exec: %w", err)
 	}
 	if err := checkWords(bufs[bnd(0, 0)], c.want); err != nil {
@@ -97,38 +100,50 @@ func runConf(t *testing.T, cases []conf) {
 	sort.Strings(names)
 	for _, c := range cases {
 		c := c
-		t.Run(c.name, func(t *testing.T) {
-			var fails []string
-			for _, on := range names {
-				if c.only != "" && c.only != on {
+		// pass 0: variables without initializer start as zero bytes; pass 1: they start as poison.
+		// WGSL zero-initialises every variable, so both passes must give the same result.
+		for pass := 0; pass < 2; pass++ {
+			name, defect := c.name, c.defect
+			if pass == 1 {
+				if c.defect != "" {
 					continue
 				}
-				b, err := compileWGSL(t, c.src, sets[on])
-				if err != nil {
-					fails = append(fails, on+": GenerateSPIRV: "+err.Error())
-					continue
-				}
-				m, err := Parse(b)
-				if err != nil {
-					t.Fatalf("%s: Parse: %v", on, err)
-				}
-				if err := c.run(m); err != nil {
-					fails = append(fails, on+": "+err.Error())
-					if len(fails) == 1 {
-						t.Logf("disassembly (%s):\n%s", on, m.Disassemble())
+				name, defect = c.name+"/poisoned_locals", c.zeroInitDefect
+			}
+			t.Run(name, func(t *testing.T) {
+				var fails []string
+				for _, on := range names {
+					if c.only != "" && c.only != on {
+						continue
+					}
+					b, err := compileWGSL(t, c.src, sets[on])
+					if err != nil {
+						fails = append(fails, on+": GenerateSPIRV: "+err.Error())
+						continue
+					}
+					m, err := Parse(b)
+					if err != nil {
+						t.Fatalf("%s: Parse: %v", on, err)
+					}
+					if err := c.run(m, pass == 1); err != nil {
+						fails = append(fails, on+": "+err.Error())
+						if len(fails) == 1 && defect == "" {
+							t.Logf("disassembly (%s):\n%s", on, m.Disassemble())
+						}
 					}
 				}
-			}
-			if c.defect != "" {
-				if len(fails) == 0 {
-					t.Fatalf("expected to fail because of a naga defect (%s) but passed", c.defect)
+				if defect != "" {
+					if len(fails) == 0 {
+						t.Logf("recorded naga defect no longer reproduces (fixed?): %s", defect)
+						return
+					}
+					t.Skipf("naga defect: %s\n%s", defect, strings.Join(fails, "\n"))
 				}
-				t.Skipf("naga defect: %s\n%s", c.defect, strings.Join(fails, "\n"))
-			}
-			if len(fails) > 0 {
-				t.Fatalf("%d option sets fail:\n%s\nsource:\n%s", len(fails), strings.Join(fails, "\n"), c.src)
-			}
-		})
+				if len(fails) > 0 {
+					t.Fatalf("%d option sets fail:\n%s\nsource:\n%s", len(fails), strings.Join(fails, "\n"), c.src)
+				}
+			})
+		}
 	}
 }
 
